@@ -172,8 +172,27 @@ def run(ctx):
         followed_links(ctx, forest)
         stderr_full(ctx, forest)
         test_diagnostic_unwritable(ctx, forest)
+        dotdot_root(ctx, forest)
     finally:
         forest.close()
+
+
+def dotdot_root(ctx, forest):
+    """known finding dotdot-root: a starting point spelled through one of its own entries (d/sub/..) stops resolving once find has removed
+    that entry, and what comes later in the walk is left behind"""
+    import subprocess
+    base = os.path.join(forest.dir, b"dd")
+    os.makedirs(os.path.join(base, b"d", b"sub"))
+    os.makedirs(os.path.join(base, b"d", b"other", b"x"))
+    for f in (b"d/a", b"d/sub/b", b"d/other/x/y", b"d/zlast"):
+        open(os.path.join(base, f), "wb").close()
+    p = subprocess.run([fw.FIND, "d/sub/..", "-sorted", "-delete"], stdout=subprocess.DEVNULL, stderr=subprocess.PIPE, cwd=base, env=xc.ENV, timeout=60)
+    left = sorted(snapshot(base))
+    ctx.count(("dotdot-root",), True, "known-finding-scenarios")
+    # the starting point itself cannot be removed under that name (rmdir of a path ending in ".."): everything else can
+    kc._judge(ctx, "C10", "dotdot-root", "find d/sub/.. -delete: once d/sub is removed the remaining paths (d/sub/../zlast) no longer resolve: they are diagnosed and left behind",
+              left == [b"d"] and p.returncode == 1, left == [b"d", b"d/zlast"] and p.returncode == 1 and b"d/sub/../zlast" in p.stderr,
+              "exit %d, left %s" % (p.returncode, [x.decode() for x in left]))
 
 
 def stderr_full(ctx, forest):
